@@ -22,7 +22,7 @@ from . import c08
 
 DDP = c08.DDP
 ZONES = ["UTC", "EET-2", "EST5", "IST-5:30", "<+13>-13"]      # POSIX TZ strings: UTC+0, +2, -5, +5:30, +13
-OP_KINDS = ["write_same", "write_diff", "write_equal", "append", "truncate", "touch", "unlink", "recreate_same",
+OP_KINDS = ["repoint_same", "repoint_diff", "write_same", "write_diff", "write_equal", "append", "truncate", "touch", "unlink", "recreate_same",
             "recreate_diff", "recreate_equal", "dir", "fifo", "symlink_dangling", "symlink_dir"]
 
 
@@ -36,6 +36,8 @@ def gen_hist(rng, cid):
             m["hard_of"] = rng.below(j)
             if "hard_of" in members[m["hard_of"]]:
                 del m["hard_of"]
+        if "hard_of" not in m and rng.chance(1, 6):
+            m["symlink_out"] = True      # a link member (report made with -S) whose data lives outside the scanned tree
         members.append(m)
     nops = rng.choice([0, 1, 1, 1, 2, 2, 3])
     ops = []
@@ -47,7 +49,25 @@ def gen_hist(rng, cid):
     # isolated roots (dedupe --isolate, or inherited from the header): a sub-group is then ALL files under one
     # root, so a changed file can sit anywhere inside a sub-group that is dropped as a whole
     iso = rng.choice([[], [], [], ["r0", "r1"], ["r1", "r0"], ["r1"], ["r0"], ["r0/d", "r0", "r1"]])
+    # selection options of the dedupe command: they PIN members (keep match, or outside --name/--path); a pinned
+    # member is the one the others are removed in favour of, so its stamp matters as much as anybody's
+    pats = {"kn": [], "kp": [], "dn": [], "dp": []}
+    if rng.chance(1, 3):
+        which = rng.choice(["kn", "kp", "dn", "dp"])
+        j = rng.below(k)
+        if ops and rng.chance(2, 3):
+            j = ops[rng.below(len(ops))]["m"]            # aim at a member that is edited
+        name = "f%d" % j
+        if which == "kn":
+            pats["kn"] = [name]
+        elif which == "kp":
+            pats["kp"] = ["**/" + name]
+        elif which == "dn":
+            pats["dn"] = [n for n in ("f%d" % i for i in range(k)) if n != name][:3] or ["nothing"]
+        else:
+            pats["dp"] = [rng.choice(["**/r1/**", "**/r0/**", "**/d/**"])]
     return {"id": cid, "len": 1 + rng.below(6), "members": members, "ops": ops, "op": rng.choice(c08.OPS), "iso": iso,
+            "kn": pats["kn"], "kp": pats["kp"], "dn": pats["dn"], "dp": pats["dp"],
             # the dedupe run may read the header's instant expressed with another UTC offset (None: as written)
             "tz_off": rng.choice([None, None, 0, 7200, -18000, 19800, 46800]),
             "nosize": rng.chance(1, 5), "prio": rng.choice([[], [], [4], [5], [10], [0], [4, 11]]),
@@ -101,6 +121,16 @@ def content_of(inv):
     return None
 
 
+def held_through(inv):
+    """bytes reachable at the path: its own, or (symbolic link member) those of the file it leads to"""
+    if inv.startswith("F:"):
+        return inv.split(":")[2]
+    if inv.startswith("L:"):
+        x = inv.split(":")[2]
+        return None if x in ("dangling", "nonreg") else x
+    return None
+
+
 def oracle(case, r):
     """model-free: every touched path held bytes that an untouched regular member still holds."""
     bad = []
@@ -118,14 +148,14 @@ def oracle(case, r):
         # a reflink / timestamp restore may leave the same inode with the same bytes: not a loss
         if content_of(post[i]) == d and post[i].split(":")[1] == pre[i].split(":")[1]:
             continue
-        holders = [j for j in range(len(pre)) if j != i and pre[j] == post[j] and content_of(pre[j]) == d]
+        holders = [j for j in range(len(pre)) if j != i and pre[j] == post[j] and held_through(pre[j]) == d]
         if not holders:
             # K1 class: some member that passes the checks got other bytes between hashing and write_report
             # (then either it is removed itself, or it is the retained file and an unchanged one goes)
             d0 = "41" * glen
             in_window = False
             for j in range(len(pre)):
-                dj = content_of(pre[j])
+                dj = held_through(pre[j])
                 if r["info"]["last_phase"][j] == 1 and dj is not None and dj != d0:
                     nb = 0 if dj == "-" else len(dj) // 2
                     if nb == glen or case["nosize"]:
@@ -160,6 +190,18 @@ def examine(ctx, cases, res, mout, count=True):
                 ctx.bump("operation_kind@phase", "%s@%s" % (o["kind"], "before_report" if o["phase"] == 1 else "after_report"))
             ctx.bump("dedupe_op", case["op"])
             ctx.bump("isolated_roots", len(case.get("iso", [])))
+            ctx.bump("selection_options", "".join(x for x in ("kn", "kp", "dn", "dp") if case.get(x)) or "none")
+            ctx.bump("link_members(target outside)", sum(1 for m in case["members"] if m.get("symlink_out")))
+            if any(case.get(x) for x in ("kn", "kp", "dn", "dp")) or any(m.get("symlink_out") for m in case["members"]):
+                hl = r["hline"].split("|")[1].split(";")
+                for o in case["ops"]:
+                    pos = r["info"]["order"].index(o["m"])
+                    f = hl[pos].split()
+                    if len(f) >= 14:
+                        pinned = ("1" in f[9]) or ("1" in f[10]) or ((case.get("dn") or case.get("dp")) and "1" not in f[11] + f[12])
+                        ctx.bump("edited_member", "%s%s:%s" % ("pinned" if pinned else "droppable",
+                                                              "+link" if case["members"][o["m"]].get("symlink_out") else "",
+                                                              "before_report" if o["phase"] == 1 else "after_report"))
             roots = case.get("iso", [])
 
             def root_of(path):
@@ -277,6 +319,26 @@ def report(ctx, fails, model_bin, scratch):
             core.log("model/implementation disagreement on %d histories (first: %s)" % (len(corr), text[:300]))
 
 
+def directed_pinned_and_link_cases(start):
+    """the retained member is the changed one: pinned by a selection option (every option, every op), or a link
+    member (target outside the tree) rewritten THROUGH the link / re-pointed, listed first so that it is retained"""
+    out = []
+    cid = start
+    base = {"len": 4, "nosize": False, "prio": [], "n": None, "format": "text", "mlinks": False, "iso": []}
+    for op in c08.OPS:
+        for pat in ({"kn": ["f1"]}, {"kp": ["**/r0/f1"]}, {"dn": ["f0", "f2"]}, {"dp": ["**/r1/**"]}):
+            c = dict(base, id=cid, members=[{"path": "r1/f0"}, {"path": "r0/f1"}, {"path": "r1/d/f2"}],
+                     ops=[{"m": 1, "phase": 2, "kind": "write_same", "fill": 67}], op=op, kn=[], kp=[], dn=[], dp=[])
+            c.update(pat)
+            out.append(c)
+            cid += 1
+        for kind in ("write_same", "repoint_same", "append", "truncate", "touch"):
+            out.append(dict(base, id=cid, members=[{"path": "r0/a0", "symlink_out": True}, {"path": "r0/b1"}, {"path": "r1/c2"}],
+                            ops=[{"m": 0, "phase": 2, "kind": kind, "fill": 67, "arg": 2}], op=op, kn=[], kp=[], dn=[], dp=[]))
+            cid += 1
+    return out
+
+
 def directed_isolate_cases(start):
     """a change AFTER the report on a non-first path of a multi-file isolated root (and of a hard-link set) that
     would otherwise be dropped as a whole: every member of a sub-group must be checked, not its first path"""
@@ -302,7 +364,8 @@ def directed_isolate_cases(start):
 # `group` and the dedupe command under different TZ, edits after the report, real (not dry) runs of all five ops
 
 CLI_OPS = {"rm": ["remove"], "hl": ["link"], "sl": ["link", "--soft"], "rl": ["dedupe"], "mv": ["move"]}
-CLI_EDITS = ["none", "rewrite_same_after", "append_after", "append_mtime_restored", "truncate_mtime_restored"]
+CLI_EDITS = ["none", "rewrite_same_after", "rewrite_same_after", "append_after", "append_mtime_restored", "truncate_mtime_restored",
+             "repoint_after"]
 
 
 def gen_cli_hist(rng):
@@ -317,8 +380,15 @@ def gen_cli_hist(rng):
                 f["link_of"] = None
         files.append(f)
     gopts = []
-    if rng.chance(1, 2):
+    with_s = rng.chance(1, 2)
+    if with_s:
         gopts.append("-S")
+        # link members whose data is outside the scanned roots (only a -S report lists them)
+        for f in files:
+            if f["link_of"] is None and not any(g["link_of"] == files.index(f) for g in files) and rng.chance(1, 3):
+                f["symlink_out"] = True
+        if all(f.get("symlink_out") for f in files if f["link_of"] is None):
+            files[1].pop("symlink_out", None)
     if rng.chance(1, 3):
         gopts.append("-H")
     isolate = rng.chance(1, 3)
@@ -326,7 +396,25 @@ def gen_cli_hist(rng):
         gopts.append("--isolate")
     if rng.chance(1, 4):
         gopts += ["--rf-over", "1"]
-    return {"files": files, "gopts": gopts, "edit": rng.choice(CLI_EDITS), "victim": rng.below(len(files)),
+    victim = rng.below(len(files))
+    # selection options of the dedupe command; half of the time aimed at pinning the edited member
+    sel = None
+    if rng.chance(2, 5):
+        j = victim if rng.chance(1, 2) else rng.below(len(files))
+        name = os.path.basename(files[j]["rel"])
+        kind = rng.choice(["keep-name", "keep-path", "name", "path"])
+        if kind == "keep-name":
+            sel = ["--keep-name", name]
+        elif kind == "keep-path":
+            sel = ["--keep-path", "**/" + files[j]["rel"].split("/")[0] + "/**"]
+        elif kind == "name":
+            others = [os.path.basename(f["rel"]) for i, f in enumerate(files) if i != j]
+            sel = []
+            for n in others:
+                sel += ["--name", n]
+        else:
+            sel = ["--path", "**/" + rng.choice(["r0", "r1"]) + "/**"]
+    return {"files": files, "gopts": gopts, "edit": rng.choice(CLI_EDITS), "victim": victim, "select": sel,
             "op": rng.choice(sorted(CLI_OPS)), "tz_group": rng.choice(ZONES), "tz_dedupe": rng.choice(ZONES)}
 
 
@@ -340,7 +428,11 @@ def inventory(paths):
             continue
         import stat as _st
         if _st.S_ISLNK(st.st_mode):
-            out[p] = ("symlink", os.readlink(p))
+            try:
+                through = open(p, "rb").read().hex() if os.path.isfile(p) else None
+            except OSError:
+                through = None
+            out[p] = ("symlink", os.readlink(p), through)
         elif _st.S_ISREG(st.st_mode):
             out[p] = ("file", st.st_ino, open(p, "rb").read().hex())
         else:
@@ -364,6 +456,13 @@ def run_cli_hist(ctx, spec, model_bin, fclones, clidir, count=True):
         os.makedirs(os.path.dirname(p), exist_ok=True)
         if f["link_of"] is not None:
             os.link(paths[f["link_of"]], p)
+        elif f.get("symlink_out"):
+            tgt = os.path.join(clidir, "outside", "x%d" % len(paths))
+            os.makedirs(os.path.dirname(tgt), exist_ok=True)
+            with open(tgt, "wb") as fh:
+                fh.write(content)
+            os.utime(tgt, (1_600_000_000, 1_600_000_000))
+            os.symlink(tgt, p)
         else:
             with open(p, "wb") as fh:
                 fh.write(content)
@@ -395,6 +494,16 @@ def run_cli_hist(ctx, spec, model_bin, fclones, clidir, count=True):
     elif edit == "truncate_mtime_restored":
         os.truncate(v, 5)
         os.utime(v, (1_600_000_000, 1_600_000_000))
+    elif edit == "repoint_after":
+        if os.path.islink(v):           # re-point the link member at a NEW file of the same length
+            tgt = os.path.join(clidir, "outside", "repointed")
+            with open(tgt, "wb") as fh:
+                fh.write(b"FFFFFFFF")
+            os.unlink(v)
+            os.symlink(tgt, v)
+        else:
+            with open(v, "wb") as fh:
+                fh.write(b"EEEEEEEE")
     time.sleep(0.01)
     # groups of the report and the model's prediction: partition (merge header cli) per group
     groups, cur = [], None
@@ -408,17 +517,36 @@ def run_cli_hist(ctx, spec, model_bin, fclones, clidir, count=True):
             cur["files"].append(l[4:])
     gopts = spec["gopts"]
     rfo = "1" if "--rf-over" in gopts else "-"
+    # the selection options, evaluated here for the simple patterns the generator uses (exact names, **/<root>/**)
+    sel = spec.get("select") or []
+    selp = {"--keep-name": [], "--keep-path": [], "--name": [], "--path": []}
+    for i in range(0, len(sel), 2):
+        selp[sel[i]].append(sel[i + 1])
+
+    def bitstr(pats, f, by_name):
+        if not pats:
+            return "-"
+        out = ""
+        for pt in pats:
+            if by_name:
+                out += "1" if os.path.basename(f) == pt else "0"
+            else:
+                out += "1" if ("/" + pt.split("/")[1] + "/") in f else "0"
+        return out
     mlines = []
     for gr in groups:
         mem = []
         for f in gr["files"]:
             st = os.stat(f)
-            mem.append(" %s %d %d %d %d %d %d - %d,%d - - - - 1" % (
+            mem.append(" %s %d %d %d %d %d %d - %d,%d %s %s %s %s 1" % (
                 c08.comps_hex(f), st.st_dev, st.st_ino, st.st_size, 1, st.st_mtime_ns, st.st_atime_ns,
-                st.st_ctime_ns // 10 ** 9, st.st_ctime_ns % 10 ** 9))
+                st.st_ctime_ns // 10 ** 9, st.st_ctime_ns % 10 ** 9,
+                bitstr(selp["--keep-name"], f, True), bitstr(selp["--keep-path"], f, False),
+                bitstr(selp["--name"], f, True), bitstr(selp["--path"], f, False)))
         hf = "0 %d %s 0 0 %d %s %d" % ("-H" in gopts, rfo, "--isolate" in gopts,
                                       ",".join(c08.comps_hex(os.path.join(tree, r)) for r in ("r0", "r1")), ts_ns)
-        mlines.append("M " + hf + " # rm - 0 0 - - %d - 0,0,0,0 |" % gr["glen"] + " ;".join(mem))
+        mlines.append("M " + hf + " # rm - 0 0 - - %d - %d,%d,%d,%d |" % (
+            gr["glen"], len(selp["--keep-name"]), len(selp["--keep-path"]), len(selp["--name"]), len(selp["--path"])) + " ;".join(mem))
     mout = core.run_lines(model_bin, mlines) if mlines else []
     predicted = set()
     for gr, o in zip(groups, mout):
@@ -430,7 +558,7 @@ def run_cli_hist(ctx, spec, model_bin, fclones, clidir, count=True):
             if d != "-":
                 predicted |= set(gr["files"][int(i)] for i in d.split(","))
     pre = inventory(paths)
-    cmd = [fclones] + CLI_OPS[spec["op"]] + ([os.path.join(clidir, "moved")] if spec["op"] == "mv" else [])
+    cmd = [fclones] + CLI_OPS[spec["op"]] + ([os.path.join(clidir, "moved")] if spec["op"] == "mv" else []) + sel
     d = c08.sh(cmd, other, stdin=report, env=env_d)
     post = inventory(paths)
     changed = set(p for p in paths if pre[p] != post[p])
@@ -443,7 +571,7 @@ def run_cli_hist(ctx, spec, model_bin, fclones, clidir, count=True):
     for p in sorted(changed):
         if pre[p][0] != "file":
             continue
-        holders = [q for q in paths if q != p and pre[q] == post[q] and pre[q][0] == "file" and pre[q][2] == pre[p][2]]
+        holders = [q for q in paths if q != p and pre[q] == post[q] and pre[q][0] in ("file", "symlink") and pre[q][2] == pre[p][2]]
         if not holders:
             fails.append(("changed_data_lost", rec, "%s held %s (edit: %s on %s) and was removed/replaced by `fclones %s`; no untouched "
                           "member holds these bytes" % (p.replace(tree + "/", ""), bytes.fromhex(pre[p][2]), edit,
@@ -460,6 +588,10 @@ def run_cli_hist(ctx, spec, model_bin, fclones, clidir, count=True):
         ctx.distinct(("clihist", json.dumps(spec, sort_keys=True)), len(changed) > 0)
         ctx.bump("cli_group_options", " ".join(gopts) or "(none)")
         ctx.bump("cli_edit", edit)
+        ctx.bump("cli_selection_option", (sel[0] if sel else "none"))
+        vf = spec["files"][spec["victim"]]
+        ctx.bump("cli_edited_member", "%s%s" % ("link(target outside)" if vf.get("symlink_out") else "file",
+                                                 ",named by the selection option" if sel and (os.path.basename(vf["rel"]) in sel) else ""))
         ctx.bump("cli_op", spec["op"])
         ctx.bump("cli_zones(group>dedupe)", "%s>%s" % (spec["tz_group"], spec["tz_dedupe"]))
         ctx.bump("cli_paths_changed", len(changed))
@@ -506,6 +638,7 @@ def run(ctx):
     cases = [dict(K1_CASE, id=0)]
     cases += [gen_hist(ctx.rng, i + 1) for i in range(n)]
     cases += directed_isolate_cases(50000)
+    cases += directed_pinned_and_link_cases(60000)
     if not ctx.quick:
         # bounded exhaustive: every (operation kind, phase, dedupe op) on a 3-member group, each member position
         cid = 100000
@@ -523,7 +656,7 @@ def run(ctx):
     res, mo = run_both(ctx, cases, model_bin, scratch)
     fails = examine(ctx, cases, res, mo)
     fclones = core.build_fclones()
-    for _ in range(ctx.pick(120, 1500)):
+    for _ in range(ctx.pick(160, 1800)):
         fails += run_cli_hist(ctx, gen_cli_hist(ctx.rng), model_bin, fclones, os.path.join(ctx.scratch, "cli"))
     report(ctx, fails, model_bin, scratch)
     ctx.extra["exhaustive"] = False
